@@ -35,6 +35,19 @@ class InfraError(Exception):
     """the simulation itself failed (never a property violation)"""
 
 
+class Runaway(BaseException):
+    """raised inside a transfer thread whose transfer does not end: more receive opportunities than any transfer of
+    this size may use. It is a BaseException so that the server's `except Exception` cannot swallow it; the thread
+    dies, the `with` blocks still close socket and file, and the observation is marked `runaway`."""
+
+
+# a transfer may use at most this many receive calls (the generators stay far below: the longest scripted transfer has
+# ~66000 packets with one receive each); beyond it the transfer is considered never-ending
+MAX_RECV_CALLS = 400000
+# consecutive time-outs after the script is exhausted (the largest max_retries the generators use is far below)
+MAX_IDLE_TIMEOUTS = 300
+
+
 def _clock():
     c = getattr(_tls, "clock", None)
     if c is None:
@@ -111,6 +124,9 @@ class Transfer:
             self.script.append(e)
         self.log = []
         self.socket = None
+        self.recv_calls = 0
+        self.idle_timeouts = 0
+        self.runaway = False
 
 
 class SimThread(_RealThread):
@@ -314,6 +330,12 @@ class FakeSocket:
         if self._closed:
             raise OSError("recvfrom on closed socket")
         tr = self.transfer
+        tr.recv_calls += 1
+        if tr.recv_calls > MAX_RECV_CALLS or tr.idle_timeouts > MAX_IDLE_TIMEOUTS:
+            # far more receive opportunities than any transfer may use, or the client has been silent for more
+            # time-outs than any retry budget allows and the server still has not given up: it will never stop
+            tr.runaway = True
+            raise Runaway()
         to = to_ticks(self._timeout)
         if to <= 0:
             raise InfraError("non-blocking transfer socket")
@@ -321,6 +343,8 @@ class FakeSocket:
         if not tr.script or tr.script[0][0] == "silence":
             if tr.script:
                 tr.script.pop(0)
+            else:
+                tr.idle_timeouts += 1
             clock[0] += to
             tr.log.append(["timeout", clock[0]])
             raise _socket.timeout("timed out")
